@@ -103,6 +103,7 @@ def generate(repo, gen_dir):
     for name, ty, val in consts(repo):
         body.append("Definition %s : %s := %s." % (name, ty, val))
     write_if_changed(os.path.join(gen_dir, "GenConsts.v"), "\n".join(body) + "\n")
+    generate_esc(repo, gen_dir)
 
 
 # ---------------------------------------------------------------- Unicode segmentation tables
@@ -140,3 +141,128 @@ def gcat_dump(repo):
         raise TranslatorError("is_incb_linker: nothing parsed")
     out += "range incb_linker " + ",".join("%s-%s" % (x, x) for x in sorted(ls, key=lambda h: int(h, 16))) + "\n"
     return out
+
+
+# ---------------------------------------------------------------- escape-sequence tables (tty/unix.rs)
+
+def _fn_body(src, name, nxt):
+    i = src.find("fn %s(" % name)
+    j = src.find("fn %s(" % nxt, i + 1) if nxt else len(src)
+    if i < 0 or j < 0:
+        raise TranslatorError("function %s not found" % name)
+    return src[i:j]
+
+
+def _match_blocks(body):
+    """[(scrutinee text, arms text)] for every `match X {` whose arms build key events, in source order."""
+    out = []
+    for m in re.finditer(r"match\s+(\([^)]*\)|\w+)\s*\{", body):
+        depth, k = 1, m.end()
+        while depth and k < len(body):
+            if body[k] == "{":
+                depth += 1
+            elif body[k] == "}":
+                depth -= 1
+            k += 1
+        out.append((m.group(1), body[m.end():k - 1]))
+    return out
+
+
+_KEYNAMES = {"Up": "KUp", "Down": "KDown", "Left": "KLeft", "Right": "KRight", "Home": "KHome", "End": "KEnd",
+             "Insert": "KInsert", "Delete": "KDelete", "PageUp": "KPageUp", "PageDown": "KPageDown",
+             "BackTab": "KBackTab", "UnknownEscSeq": "KUnknown", "BracketedPasteStart": "KPasteStart",
+             "BracketedPasteEnd": "KPasteEnd", "Enter": "KEnter"}
+
+
+def _mods(name):
+    parts = name.split("_")
+    return "(mkMods %s %s %s)" % tuple("true" if x in parts else "false" for x in ("CTRL", "ALT", "SHIFT"))
+
+
+def _arms(arms, consts, what):
+    res = []
+    for line in arms.split("\n"):
+        s = line.strip()
+        if not s or s.startswith("//") or s.startswith("_") or s.startswith("debug!") or s.startswith('"') \
+                or s in ("}", "{", "})") or s.startswith("E(K::UnknownEscSeq"):
+            continue
+        m = re.match(r"(.+?)\s*=>\s*(E\(K::(\w+)(?:\((\d+|'.')\))?,\s*M::(\w+)\)|E::ENTER),?\s*(//.*)?$", s)
+        if not m:
+            raise TranslatorError("%s: cannot parse arm: %s" % (what, s))
+        pat = m.group(1).strip()
+        if m.group(2) == "E::ENTER":
+            key = "(KEnter, mkMods false false false)"
+        else:
+            kname, karg, mods = m.group(3), m.group(4), m.group(5)
+            if kname == "F":
+                kc = "(KF %s)" % karg
+            elif kname == "Char":
+                kc = "(KChar %d%%N)" % ord(karg[1])
+            elif kname in _KEYNAMES:
+                kc = _KEYNAMES[kname]
+            else:
+                raise TranslatorError("%s: unknown key %s" % (what, kname))
+            key = "(%s, %s)" % (kc, _mods(mods))
+
+        def item(t):
+            t = t.strip()
+            if re.fullmatch(CHAR_LIT, t):
+                return _rust_char(t)
+            if t in consts:
+                return consts[t]
+            raise TranslatorError("%s: unknown pattern item %s" % (what, t))
+        if pat.startswith("("):
+            items = [item(t) for t in pat[1:-1].split(",")]
+            res.append((items, key))
+        else:
+            for alt in pat.split("|"):
+                res.append(([item(alt)], key))
+    if not res:
+        raise TranslatorError("%s: empty table" % what)
+    return res
+
+
+def esc_tables(repo):
+    src = _read(repo, "src/tty/unix.rs")
+    consts = {}
+    for m in re.finditer(r"^const (\w+): char = (" + CHAR_LIT + r");", src, re.M):
+        consts[m.group(1)] = _rust_char(m.group(2))
+    for need in ("UP", "DOWN", "RIGHT", "LEFT", "END", "HOME", "INSERT", "DELETE", "PAGE_UP", "PAGE_DOWN", "RXVT_HOME",
+                 "RXVT_END", "SHIFT", "ALT", "ALT_SHIFT", "CTRL", "CTRL_SHIFT", "CTRL_ALT", "CTRL_ALT_SHIFT", "RXVT_SHIFT",
+                 "RXVT_CTRL", "RXVT_CTRL_SHIFT"):
+        if need not in consts:
+            raise TranslatorError("constant %s not found in tty/unix.rs" % need)
+    tabs = []
+    csi = _match_blocks(_fn_body(src, "escape_csi", "extended_escape"))
+    # escape_csi has: match seq2 {'0'|'9' ...} (no E(K::X) arms except Unknown), match seq3 {...}, match seq2 {ANSI}
+    ansi = [a for s, a in csi if s == "seq2" and "K::Up" in a]
+    linux = [a for s, a in csi if s == "seq3" and "K::F(1)" in a]
+    if len(ansi) != 1 or len(linux) != 1:
+        raise TranslatorError("escape_csi: tables not found")
+    tabs.append(("tab_csi_ansi", _arms(ansi[0], consts, "tab_csi_ansi")))
+    tabs.append(("tab_csi_linux", _arms(linux[0], consts, "tab_csi_linux")))
+    ext = _match_blocks(_fn_body(src, "extended_escape", "escape_o"))
+    want = [("seq2", "tab_ext_tilde"), ("(seq2, seq3)", "tab_ext_2d_tilde"), ("(seq2, seq3, seq5)", "tab_ext_2d_mod_tilde"),
+            ("(seq2, seq3, seq4)", "tab_ext_3d_tilde"), ("(seq4, seq5)", "tab_ext_1_mod"),
+            ("(seq2, seq4)", "tab_ext_mod_tilde"), ("(seq2, seq3)", "tab_ext_rxvt")]
+    ext = [(s, a) for s, a in ext if "E(K::" in a]
+    if [s for s, _ in ext] != [w for w, _ in want]:
+        raise TranslatorError("extended_escape: match blocks are %r" % [s for s, _ in ext])
+    for (s, a), (_, name) in zip(ext, want):
+        tabs.append((name, _arms(a, consts, name)))
+    ss3 = [a for s, a in _match_blocks(_fn_body(src, "escape_o", "poll")) if s == "seq2"]
+    if len(ss3) != 1:
+        raise TranslatorError("escape_o: table not found")
+    tabs.append(("tab_ss3", _arms(ss3[0], consts, "tab_ss3")))
+    return tabs
+
+
+def generate_esc(repo, gen_dir):
+    from common import write_if_changed
+    body = ["(* GENERATED on every check by tools/gen_tables.py from src/tty/unix.rs -- do not edit. *)",
+            "From Coq Require Import List NArith.", "From RL Require Import Keys.", "Import ListNotations.", ""]
+    for name, rows in esc_tables(repo):
+        body.append("Definition %s : list (list N * key) :=" % name)
+        body.append("  [" + ";\n   ".join("([%s]%%N, %s)" % ("; ".join(str(c) for c in pat), key) for pat, key in rows) + "].")
+        body.append("")
+    write_if_changed(os.path.join(gen_dir, "GenEscSeq.v"), "\n".join(body) + "\n")
